@@ -29,6 +29,7 @@ inductive Fault where
   | localStall             -- a local connection that never completes its handshake
   | localUdpGarbage        -- a malformed SOCKS5-UDP datagram on the client's local UDP port
   | outboundFail           -- the client cannot reach / write to the server for one binding
+  | bindingStall           -- the client opens a binding whose connection to the server stalls in its tls / websocket / quic handshake
   | udpFlood               -- udp sessions whose clients and targets both send in bursts (every queue between the tasks fills)
   | resolverStall          -- flows name targets whose resolver does not answer (each look-up waits for its time-out)
 deriving Repr, DecidableEq
@@ -55,6 +56,7 @@ def stepOld (s : State) : Fault → State
   | .udpGarbage => if s.deadEntries > 0 then { s with accepting := false } else s  -- next packet of a dead entry: `try_send(..)?`
   | .localUdpGarbage => { s with blocked := true }                 -- Err left the datagram in the read buffer: every poll re-failed
   | .outboundFail => { s with accepting := false }                 -- `new_out(..).await?` / `sink.send(..).await?`
+  | .bindingStall => { s with blocked := true }                    -- `new_out(..).await` inside the loop that serves every local application
   | .udpFlood => { s with blocked := true }                        -- the loop awaited room in one association's queue while that association awaited room in the loop's
   | .resolverStall => { s with blocked := true }                   -- `to_socket_addrs()` on the worker thread: as many such flows as workers and nothing runs
   | _ => s
